@@ -118,7 +118,7 @@ long_lemma!(c11_tc0_carries_nothing, 17, 0, F_CAP0, nothing);
 // @harness name=c11_tc31_version_only props=C11,C06 tier=quick cap=900
 // DF17 TC31: ADS-B version (and CA), nothing else
 long_lemma!(c11_tc31_version_only, 17, 31, F_CAP0 | F_ADSB_VER, version_is_field);
-// @harness name=c11_tc21_gnss_only props=C11 tier=thorough cap=900
+// @harness name=c11_tc21_gnss_only props=C11 tier=quick cap=900
 // DF17 TC21: GNSS altitude and surveillance status only
 long_lemma!(c11_tc21_gnss_only, 17, 21, F_CAP0 | F_ALT_GNSS | F_SURV, surv_is_field);
 // @harness name=c11_tc6_surface props=C11,C06 tier=quick cap=900
